@@ -5,6 +5,7 @@ import (
 	"encoding/binary"
 	"fmt"
 	"io"
+	"math"
 
 	"reduction.dev/reduction-protocol/handlerpb"
 	"reduction.dev/reduction/dkv"
@@ -51,6 +52,13 @@ func (s *KeyedStateStore) GetState(key []byte) ([]*handlerpb.StateEntryNamespace
 }
 
 func (s *KeyedStateStore) ApplyMutations(subjectKey []byte, mutations []*handlerpb.StateMutationNamespace) error {
+	// The namespace length is stored in a single byte of the composite key.
+	for _, namespace := range mutations {
+		if len(namespace.Namespace) > math.MaxUint8 {
+			return fmt.Errorf("state namespace %q is %d bytes long, the maximum is %d", namespace.Namespace, len(namespace.Namespace), math.MaxUint8)
+		}
+	}
+
 	for _, namespace := range mutations {
 		for _, mutation := range namespace.Mutations {
 			switch mutation.GetMutation().(type) {
